@@ -232,3 +232,46 @@ PROPS["C14"] = _decode_prop(
     _SCEN + "Non-trivial and distinct as for C01.",
     dict(min_evaluations=200, min_distinct=60, counters={"json_level0_checked": 100, "json_level1_checked": 20, "json_level2_checked": 20,
                                                         "json_buffer_sizes_checked": 50}))
+
+
+def _diff_prop(title, monitor, level_text, level_note, rule, floor, quick, thorough):
+    return dict(
+        title=title, level="exploration",
+        technique="differential runtime monitor: byte-exact comparison of complete result records between calling patterns / decoder histories / instances, under ASan/UBSan",
+        level_text=level_text, level_note=level_note, rule=rule,
+        stages=[
+            dict(harness="h_diff", flavor="asan", quick=quick[0], thorough=thorough[0], args=["--x-monitor", monitor], name="h_diff_asan"),
+            dict(harness="h_diff", flavor="fast", quick=quick[1], thorough=thorough[1], args=["--x-monitor", monitor], name="h_diff_fast"),
+        ],
+        floor=floor,
+        assumptions=[A_SAN, A_GEN],
+    )
+
+
+PROPS["C07"] = _diff_prop(
+    "Decoding results do not depend on chunking or buffering mode", "C07",
+    "exploration: for each scenario the reference run (2048-sample int16 chunks) and 6-8 variant calling patterns on the same decoder -- one "
+    "streaming call, random chunks down to single samples, first chunk shorter than one analysis window, huge chunks, buffered (no_search) "
+    "prefixes or everything buffered, float32 entry point, full_utt (only when cmn is live or none: batch CMN is documented to normalise "
+    "differently), with hyp/seg/lattice/alignment/JSON/CMN queries interleaved -- must give the identical record: hypothesis, score, every "
+    "segment with its scores, the three-level alignment, frames searched. decoder_set_cmn fixes the normalisation state before every run.",
+    "audio stays below the live-CMN update window (the bundled recordings are < 3 s); dither is off",
+    "one case = one (model, search parameters, grammar, audio) with its variant runs; non-trivial = the reference produced a segmentation; "
+    "distinct = hash of (reference record, grammar).",
+    dict(min_evaluations=60, min_distinct=20, counters={"variants_compared": 300, "variant_first_chunk_lt_1_frame": 50, "variant_full_utt": 10,
+                                                       "variant_buffered": 50, "variant_float32": 30, "references_with_alignment": 20, "partial_queries": 100}),
+    quick=(80, 160), thorough=(1500, 4000))
+
+PROPS["C08"] = _diff_prop(
+    "Utterances and decoder instances are isolated; decoding is deterministic", "C08",
+    "exploration: each target utterance (configuration, grammar, audio, calling pattern, CMN state set explicitly -- except in full_utt batch "
+    "mode, where no reset is needed) is decoded on a fresh decoder, on a long-lived decoder after 0-3 random earlier utterances (other audio "
+    "incl. adversarial and zero-length, other grammars, other patterns, partial queries, unrelated decoder_add_word calls; the decoder is kept "
+    "for up to 40 cases so histories get long), and twice in a row; the records (hypothesis, score, segments+scores, alignment, lattice node/link "
+    "multiset, exported CMN state, frames searched) must be identical. For 30% of the cases two decoders are alive and their calls interleaved at "
+    "random; each must reproduce the record of its own solo run with the same call sequence.",
+    "dither is excluded (process-global RNG); the quantifier is over histories, not over configurations",
+    "one case = one target with its fresh / after-history / repeated (/ interleaved) runs; non-trivial = the fresh run produced a segmentation.",
+    dict(min_evaluations=40, min_distinct=15, counters={"targets_compared": 40, "history_utterances": 30, "interleaved_pairs_compared": 5,
+                                                       "targets_with_cmn_reset": 20}),
+    quick=(48, 96), thorough=(1000, 3000))
